@@ -283,3 +283,17 @@ Fixpoint wf (e : expr) : bool :=
   | EAlias _ x => plain x && wf x
   | ENamed _ x => plain x && wf x
   end.
+
+(* every operator index of the tree is one of the nb binary / nu unary operators of the tables *)
+Fixpoint ops_ok (nb nu : nat) (e : expr) : bool :=
+  match e with
+  | EAtom _ | ERng0 => true
+  | EBin o l r => (o <? nb) && ops_ok nb nu l && ops_ok nb nu r
+  | EUn u x => (u <? nu) && ops_ok nb nu x
+  | ERng l r => ops_ok nb nu l && ops_ok nb nu r
+  | ERngL l => ops_ok nb nu l
+  | ERngR r => ops_ok nb nu r
+  | ECall f args => ops_ok nb nu f && (fix go (l : list expr) : bool := match l with [] => true | a :: t => ops_ok nb nu a && go t end) args
+  | EGroup _ es => (fix go (l : list expr) : bool := match l with [] => true | a :: t => ops_ok nb nu a && go t end) es
+  | EAlias _ x | ENamed _ x => ops_ok nb nu x
+  end.
